@@ -531,8 +531,21 @@ pub fn cmd_static(a: &Args) {
             let pseed = seed.wrapping_mul(1_000_003).wrapping_add((*idx as u64) * 17 + pi as u64);
             let af = afio::build(spec, present, pseed);
             let proj = afio::projection(&af);
+            let padded = present == "padded";
+            if padded {
+                // the judge is given the core framework only (see afio::build_padded)
+                let core = |v: &serde_json::Value| -> Vec<serde_json::Value> {
+                    v.as_array().unwrap().iter().filter(|x| {
+                        if let Some(a) = x.as_array() { a.iter().take(if a.len() == 2 && v == &proj["att"] { 2 } else { 1 }).all(|y| (y.as_u64().unwrap() as usize) <= spec.n) }
+                        else { (x.as_u64().unwrap() as usize) <= spec.n }
+                    }).cloned().collect()
+                };
+                lines.push(json!({"ev": "af", "idx": idx, "tag": spec.tag, "present": present, "n": spec.n, "real_n": af.n_arguments(),
+                    "args": core(&proj["args"]), "ids": core(&proj["ids"]), "att": core(&proj["att"]), "sems": sems}).to_string());
+            } else {
             lines.push(json!({"ev": "af", "idx": idx, "tag": spec.tag, "present": present, "n": spec.n,
                 "args": proj["args"], "ids": proj["ids"], "att": proj["att"], "sems": sems}).to_string());
+            }
             let labels: Vec<usize> = (1..=spec.n).collect();
             let mut nq = 0usize;
             let exp_too_big = exp_cost(&af) > 200_000.0;
@@ -540,6 +553,9 @@ pub fn cmd_static(a: &Args) {
                 lines.push(json!({"ev": "skip", "what": "exp_co encoder not run: its cartesian product exceeds 2e5 clauses for one argument", "cost": exp_cost(&af)}).to_string());
             }
             for sem in &sems {
+                if padded && (sem == "SST" || sem == "STG") {
+                    continue; // range-based semantics are not directional
+                }
                 for kind in &kinds {
                     let qargs: Vec<Vec<usize>> = if kind == "SE" { vec![vec![]] } else { arg_lists(&labels, lists) };
                     let encs: Vec<&str> = if enc_mode == "all" { encoders_for(sem, kind) } else { vec![encoders_for(sem, kind)[0]] };
@@ -579,7 +595,15 @@ pub fn cmd_static(a: &Args) {
                                     }
                                     continue;
                                 }
-                                let ex = explore(budget, oracle == "dfs", cap, &backend, |ctl| run_query(&af, sem, kind, qa, *cert, enc, ctl));
+                                let ex = explore(budget, oracle == "dfs", cap, &backend, |ctl| {
+                                    let mut o = run_query(&af, sem, kind, qa, *cert, enc, ctl);
+                                    if padded {
+                                        if let Some(e) = o.ext.as_mut() {
+                                            e.retain(|p| p.0 <= spec.n);
+                                        }
+                                    }
+                                    o
+                                });
                                 for (o, mult) in &ex.outcomes {
                                     let ent = by_out.entry(o.clone()).or_insert((vec![], 0, 0, true));
                                     ent.0.push(enc.to_string());
